@@ -58,14 +58,16 @@ package memberlist
 
 // Lock invariant of nodeLock (Inv_N, DESIGN §4); each conjunct is its own obligation.
 //@ lock Memberlist.nodeLock recv m strict
-//@   protects Memberlist.nodes, nodeState.*, elems *nodeState, map map[string]*nodeState, map map[string]*suspicion
+//@   protects Memberlist.nodes, nodeState.*, elems *nodeState, map map[string]*nodeState, map map[string]*suspicion, suspicion.n, map map[string]struct{}
 //@   assume size: len(m.nodes) < 2147483647   // fewer than 2^31 members (randomOffset takes uint32(len))
+//@   assume cfg: m.config.SuspicionMaxTimeoutMult >= 1 && m.config.ProbeInterval >= 0 && m.config.SuspicionMult >= 0   // configuration validity, not enforced by Create
 //@   inv N1 [C01,C07]: forall n string :: has(m.nodeMap, n) ==> allocated(m.nodeMap[n]) && m.nodeMap[n].Name == n
 //@   inv N2 [C07]: forall i int :: 0 <= i && i < len(m.nodes) ==> allocated(m.nodes[i]) && has(m.nodeMap, m.nodes[i].Name) && m.nodeMap[m.nodes[i].Name] == m.nodes[i]
 //@   inv N3 [C07]: forall i int, j int :: 0 <= i && i < j && j < len(m.nodes) ==> m.nodes[i] != m.nodes[j]
 //@   inv N4 [C07]: len(m.nodes) == len(m.nodeMap)
 //@   inv N5 [C01,C06]: forall n string :: has(m.nodeTimers, n) <==> (has(m.nodeMap, n) && m.nodeMap[n].State == StateSuspect)
 //@   inv N5b [C06]: forall n string :: has(m.nodeTimers, n) ==> allocated(m.nodeTimers[n])
+//@   inv N5c [C06]: forall n string :: has(m.nodeTimers, n) ==> suspOK(m.nodeTimers[n])
 //@   inv N6 [C02]: has(m.nodeMap, m.config.Name) ==> m.nodeMap[m.config.Name].State != StateSuspect
 //@   inv N7 [C01]: forall n string :: has(m.nodeMap, n) ==> 0 <= m.nodeMap[n].State && m.nodeMap[n].State <= 3
 //@   inv N9 [C02]: !$wrapped && has(m.nodeMap, m.config.Name) && !(dol(m.nodeMap[m.config.Name].State) && m.leave == 1) ==> m.nodeMap[m.config.Name].Incarnation <= m.incarnation
@@ -100,15 +102,34 @@ package memberlist
 //@   assigns $bq
 //@   ensures enq: $bq == snoc(old($bq), Bq(node, msgType, msgInc(msg), msgSubj(msg), msgFrom(msg), notify))
 
+// ---- C06: suspicion objects. suspOK is the representation invariant every registered suspicion satisfies (N5c).
+//@ ghost $elapsed int
+//@ pure suspOK(s *suspicion) bool := s != nil && s.timer != nil && s.confirmations != nil && 0 <= s.n && (s.n <= s.k || s.n == 0) && 0 <= s.min && s.min <= s.max
+
 //@ func (*suspicion).Confirm(s, from)
+//@   safety [C06,C13]
 //@   modular
-//@   requires nonnil: s != nil
-//@   assigns suspicion.*, map map[string]struct{}
+//@   requires ok: suspOK(s)
+//@   assigns suspicion.n, map map[string]struct{}, $elapsed
+//@   at call time.Since: set $elapsed := res
+//@   at call (*time.Timer).Reset: assert rearm-min [C06]: arg1 > 0 && arg1 + $elapsed >= s.min
+//@   at call (*time.Timer).Reset: assert rearm-max [C06]: arg1 + $elapsed <= s.max
+//@   at go dyn:s.timeoutFn: assert fire-after-min [C06]: $elapsed >= s.min
+//@   ensures F-ret [C06]: result <==> (old(s.n) < s.k && !old(has(s.confirmations, from)))
+//@   ensures F-cnt [C06]: s.n == old(s.n) + ite(result, 1, 0) && (result ==> s.n <= s.k)
+//@   ensures F-set [C06]: forall x string :: has(s.confirmations, x) <==> (old(has(s.confirmations, x)) || (result && x == from))
+//@   ensures F-ok [C06]: suspOK(s)
+//@   ensures F-frame [C06]: forall p *suspicion :: p != s ==> p.n == old(p.n)
 
 //@ func newSuspicion(from, k, min, max, fn)
+//@   safety [C06,C13]
 //@   modular
-//@   assigns suspicion.*, map map[string]struct{}
-//@   ensures fresh: result != nil && fresh(result)
+//@   requires mm: 0 <= min && min <= max
+//@   at call time.AfterFunc: assert initial-timeout [C06]: arg0 == ite(k < 1, min, max)
+//@   ensures fresh [C06]: result != nil && fresh(result)
+//@   ensures init [C06]: suspOK(result) && result.n == 0 && result.min == min && result.max == max && (k >= 0 && k <= 2147483647 ==> result.k == k)
+//@   ensures accuser [C06]: has(result.confirmations, from) && (forall x string :: x != from ==> !has(result.confirmations, x))
+//@   ensures frame [C06]: forall p *suspicion :: p != result ==> p.timer == old(p.timer) && p.start == old(p.start) && p.n == old(p.n) && p.k == old(p.k) && p.min == old(p.min) && p.max == old(p.max) && p.confirmations == old(p.confirmations)
 
 //@ func (*Memberlist).refute(m, me, accusedInc)
 //@   safety [C02,C13]
@@ -145,6 +166,9 @@ package memberlist
 //@   ensures S-suspect [C01,C03,C06]: h && s.Incarnation >= old(r.Incarnation) && !t && old(r.State) == StateAlive && n != m.config.Name ==>
 //@                  m.nodeMap[n] == r && r.Incarnation == s.Incarnation && r.State == StateSuspect && has(m.nodeTimers, n) && $ev == old($ev)
 //@                  && $bq == snoc(old($bq), Bq(n, suspectMsg, s.Incarnation, n, s.From, 0))
+//@   at call newSuspicion: assert susp-params [C06]: from == s.From && max == m.config.SuspicionMaxTimeoutMult * min
+//@                  && (k == m.config.SuspicionMult - 2 || k == 0) && (k == 0 ==> m.config.SuspicionMult - 2 <= 0 || m.numNodes - 2 < m.config.SuspicionMult - 2)
+//@                  && (k != 0 ==> k == m.config.SuspicionMult - 2 && m.numNodes - 2 >= k)
 //@   ensures S-live [C07,C09]: forall x string :: live(m, x) == old(live(m, x))
 //@   ensures S-noev [C07]: $ev == old($ev)
 //@   ensures S-mono [C01]: !$wrapped ==> forall x string :: old(has(m.nodeMap, x)) ==> has(m.nodeMap, x) &&
@@ -623,3 +647,12 @@ package memberlist
 //@ func labelOverhead(label)
 //@   safety [C11,C16]
 //@   ensures oh [C11,C16]: result == ite(label == "", 0, 2 + len(label))
+
+// the suspicion timer callback (C06 stale-timer guard, C03 failure wiring): the death claim is built and
+// validated under the lock, for the suspicion this timer belongs to
+//@ func (*Memberlist).suspectNode$1(numConfirmations)
+//@   safety [C06,C13]
+//@   monitor Memberlist.nodeLock
+//@   requires ok: mlOK(m) && s != nil
+//@   at call (*Memberlist).deadNode: assert stale-guard [C03,C06]: old(has(m.nodeMap, s.Node)) && state == old(m.nodeMap[s.Node]) && old(state.State) == StateSuspect && old(state.StateChange) == changeTime
+//@   at call (*Memberlist).deadNode: assert claim [C03,C06]: d.Incarnation == old(state.Incarnation) && d.Node == old(state.Name) && d.From == m.config.Name
